@@ -28,10 +28,21 @@ fn tol_base(def: &Def, base: f64) -> (f64, f64) {
 }
 
 pub fn table_agreement(ctx: &mut Ctx, conv: &Converter) {
+    spellings(ctx, conv, units::SPELLINGS, "bundled");
+    // the shipped translation layer on top of the bundled units
+    let es = std::fs::read_to_string("/repo/units/spanish.toml").ok().and_then(|t| toml::from_str::<cooklang::convert::UnitsFile>(&t).ok()).and_then(|f| Converter::builder().with_units_file(cooklang::convert::UnitsFile::bundled()).ok()?.with_units_file(f).ok()?.finish().ok());
+    match es {
+        Some(c) => spellings(ctx, &c, units::SPELLINGS_ES, "bundled+spanish"),
+        None => ctx.count("spanish_layer_does_not_build(observation; C16 judges that)"),
+    }
+    table_definitions(ctx, conv);
+}
+
+fn spellings(ctx: &mut Ctx, conv: &Converter, table: &[(&str, &str)], which: &str) {
     // everyday spellings: whichever of them the converter declares must belong to the unit everybody means by it, and
     // converting through the spelling must give the standard amount
-    for (spelling, canonical) in units::SPELLINGS {
-        let case = Case::new("table", format!("spelling {spelling}"), 0, "bundled");
+    for (spelling, canonical) in table {
+        let case = Case::new("table", format!("spelling {spelling} ({which})"), 0, "bundled");
         ctx.evals += 1;
         let Some(u) = units::unit_by_exact_key(conv, spelling) else {
             ctx.count("spellings_not_declared(observation)");
@@ -56,6 +67,9 @@ pub fn table_agreement(ctx: &mut Ctx, conv: &Converter) {
             Err(p) => ctx.violation(&case, "table", "panic", format!("{p:?}")),
         }
     }
+}
+
+fn table_definitions(ctx: &mut Ctx, conv: &Converter) {
     for u in conv.all_units() {
         let case = Case::new("table", u.symbol(), 0, "bundled");
         ctx.evals += 1;
